@@ -94,7 +94,7 @@ pub fn main(args: Args) {
         run.finish(&[]);
     }
 
-    let n = args.budget("cases", 100, 1600);
+    let n = args.budget("cases", 120, 1200);
     for (arm, var) in ARMS.iter() {
         if let Some(only) = args.get("arm")
             && only != *arm
@@ -232,9 +232,22 @@ pub fn report(run: &Run, o: &Opts, i: u64, r: Result<CaseOut, PanicInfo>) {
                         run.note(format!("case {i} {arm}/{}/{}: mismatch after a same-word write collision — not judged", c.lib, c.ram_cfg));
                         continue;
                     }
+                    if let Some(why) = &out.rtl_engines_disagree {
+                        // the simulator's own engines disagree on this design: C02/C03's subject, no stable RTL reference here
+                        run.count("mismatches_not_judged_rtl_engines_disagree", 1);
+                        run.seen("rtl_engine_disagreement_cases", &format!("{}:{i}", out.kind));
+                        run.note(format!("case {i} ({}) {arm}: netlist/RTL mismatch not judged — {why}", out.kind));
+                        continue;
+                    }
                     let phase = if m.in_reset_cycle || m.cycle < 2 { "reset-state" } else { "running" };
                     let ramtag = if c.info.rams > 0 { "ram" } else { "noram" };
-                    let sig = format!("trace-mismatch:{}:{phase}:{ramtag}", out.kind);
+                    // probes of known defect classes and vgen's DesignGen (which mixes several of them)
+                    // are keyed by kind alone; everything else also by phase and RAM presence
+                    let sig = if out.kind.starts_with("known_") || out.kind.starts_with("simdefect_") || out.kind.starts_with("dg_") {
+                        format!("trace-mismatch:{}", out.kind)
+                    } else {
+                        format!("trace-mismatch:{}:{phase}:{ramtag}", out.kind)
+                    };
                     run.violation(
                         &sig,
                         &format!(
